@@ -37,6 +37,7 @@ structure Meta where
   sealed : Bool
   accW : Bool              -- accessor_writable
   part : Bool              -- allow_partial
+  ref : Option Nat := none -- pg.Ref only: the referenced value (id of a node, or of a plain object)
   deriving DecidableEq, Repr, Inhabited
 
 inductive Tree where
@@ -53,13 +54,22 @@ structure Cfg where
   reindexOnReorder : Bool    -- F02: `sort` / `reverse` re-index
   listCloneSealed : Bool     -- F17: `List._sym_clone` passes `sealed`
   detachOnRemove : Bool      -- F78: `del l[i]` / `pop` / `remove` / `clear` / `popitem` detach what they remove
+  insertCopiesOwn : Bool     -- F79: inserting an element of a list into that list copies it
   deriving DecidableEq, Repr
 
-def Cfg.pinned : Cfg := ⟨false, false, false, false⟩
-def Cfg.patched : Cfg := ⟨true, true, true, true⟩
+def Cfg.pinned : Cfg := ⟨false, false, false, false, false⟩
+def Cfg.patched : Cfg := ⟨true, true, true, true, true⟩
 
-/-- The test classes of the harness: class `c` has fields `k0 … k(c+1)`, all `Any`, default None. -/
-def clsFields (cls : Nat) : List Key := (List.range (cls + 2)).map Key.s
+/-- The object classes: 0 and 1 are the test classes of the harness (fields `k0 k1` / `k0 k1 k2`,
+all `Any`, default None, `allow_symbolic_assignment = True`); 2 is `pg.Ref`, 3 is
+`pg.symbolic.ValueFromParentChain` (no symbolic fields, not assignable). -/
+def clsFields : Nat → List Key
+  | 0 => [Key.s 0, Key.s 1]
+  | 1 => [Key.s 0, Key.s 1, Key.s 2]
+  | _ => []
+
+def clsRef : Nat := 2
+def clsInferred : Nat := 3
 
 namespace Tree
 
@@ -156,6 +166,7 @@ def sealIf (b : Bool) (t : Tree) : Tree := if b then t.seal true else t
 def cloneSealed (cfg : Cfg) (m : Meta) : Bool :=
   match m.kind with
   | .list => cfg.listCloneSealed && m.sealed
+  | .obj 2 => false          -- `Ref._sym_clone` builds `Ref(value, allow_partial=…)`: `sealed` is lost (F90)
   | _ => m.sealed
 
 mutual
@@ -193,6 +204,16 @@ mutual
   def updateAtItems (t : Nat) (g : Meta → Items → Items) : Items → Items
     | [] => []
     | (k, c) :: r => (k, c.updateAt t g) :: updateAtItems t g r
+end
+
+mutual
+  /-- apply `g` to the subtree rooted at the node with id `t`. -/
+  def Tree.mapSubtree (t : Nat) (g : Tree → Tree) : Tree → Tree
+    | .leaf a => .leaf a
+    | .node m its => if m.id = t then g (.node m its) else .node m (mapSubtreeItems t g its)
+  def mapSubtreeItems (t : Nat) (g : Tree → Tree) : Items → Items
+    | [] => []
+    | (k, c) :: r => (k, c.mapSubtree t g) :: mapSubtreeItems t g r
 end
 
 /-! ### Local item-list functions -/
@@ -274,6 +295,7 @@ end Forest
 inductive VE where
   | atom (a : Atom)                 -- a leaf value as it is (an `opaque i` is that very object)
   | fresh                           -- a fresh non-symbolic object
+  | mkRef (tgt : Option Nat)        -- `pg.Ref(x)`: x an existing node, or (none) a fresh plain list
   | node (kind : Kind) (sealed accW part : Bool) (items : List (Key × VE))
   | ref (id : Nat)                  -- an existing node object
   deriving Repr, Inhabited
@@ -286,7 +308,8 @@ def VE.isMissing : VE → Bool
 clone (shallow) when the node believes it has a parent and is not believed to be already at this
 very location, otherwise move the very node; then overwrite its beliefs. `pending` is the
 old value of the slot being written by `Dict._set_item_without_permission_check`: it has just
-been detached (parent None) but still occupies the slot, so offering it moves it. For attribute
+been detached (parent None) but still occupies the slot, so offering it moves it (the model
+keeps it in its slot with its old beliefs until the new value is stored and detaches it here). For attribute
 containers of objects the identity test `value.sym_parent is not self` compares the owner object
 with the attribute dict and is always true (`holderObj`). -/
 def relocateRef (cfg : Cfg) (f : Forest) (pending : Option Nat) (par : Option Nat) (holderObj : Bool) (p : List Key) (id : Nat) :
@@ -301,14 +324,24 @@ def relocateRef (cfg : Cfg) (f : Forest) (pending : Option Nat) (par : Option Na
     | none => (f, .leaf .none)
   | some (.leaf a) => (f, .leaf a)
   | some (.node m its) =>
-    if m.parent.isNone || (!holderObj && m.parent == par && m.path == p) then
+    if pending == some id then
+      -- the value being replaced by this very call: the dict has detached it (parent None, path
+      -- root) before it formalizes the new value, so it is moved; it leaves its slot when the
+      -- new value is stored
+      ({ f with pool := f.pool ++ [.node m its] },
+       ((((Tree.node m its).setParent none).setPath []).setPath p).setParent par)
+    else if m.parent.isNone || (!holderObj && m.parent == par && m.path == p) then
       let t := ((Tree.node m its).setPath p).setParent par
       if f.isRoot id then ({ f.removeRoot id with pool := f.pool ++ [.node m its] }, t)
-      else if pending == some id then ({ f with pool := f.pool ++ [.node m its] }, t)     -- the value being replaced: it leaves its slot in this very call
       else ({ f with aliased := true }, t)
     else
       let c := (Tree.node m its).clone cfg false f.nextId par p
       ({ f with nextId := c.2 }, c.1)
+
+/-- store `v` under `slot` of the container with meta `m'`; `v` was built for the path
+`m'.path ++ [pathKey]` (re-pathing it there is the identity — `setPath` returns at once). -/
+def storeKey (slot pathKey : Key) (v : Tree) (m' : Meta) (xs : Items) : Items :=
+  setKey slot (v.setPath (m'.path ++ [pathKey])) xs
 
 def normObjItems (cls : Nat) (its : Items) : Items :=
   (clsFields cls).map (fun k => (k, (getKey its k).getD (.leaf .none)))
@@ -319,6 +352,13 @@ mutual
   through `relocateRef`. The result is built for the destination (`par`, `p`). -/
   def evalVE (cfg : Cfg) (f : Forest) (pending : Option Nat) (par : Option Nat) (holderObj : Bool) (hpart : Bool) (p : List Key) : VE → Forest × Tree
     | .fresh => ({ f with nextId := f.nextId + 1 }, .leaf (.opaque f.nextId))
+    | .mkRef tgt =>
+      -- a Ref is a pg.Object without symbolic fields; the referenced value is not its child
+      let id := f.nextId
+      let tg := tgt.getD (id + 1)
+      ({ f with nextId := id + 2 },
+       .node { id := id, parent := par, path := p, kind := .obj clsRef, sealed := false, accW := false,
+               part := false, ref := some tg } [])
     | .atom a => (f, .leaf a)
     | .ref id => relocateRef cfg f pending par holderObj p id
     | .node kind sl aw pt items =>
@@ -327,18 +367,21 @@ mutual
       -- a plain container converted by `from_json` inherits `allow_partial` of its holder
       -- (`accepts_partial(self)`, dict.py:591 / list.py:438); a constructed one keeps its own.
       let pt := if par.isSome && !sl && aw && !pt && !isObj then hpart else pt
-      let r := evalItems cfg { f with nextId := id + 1 } pending id isObj pt p items
+      -- list items are addressed by their position
+      let r := evalItems cfg { f with nextId := id + 1 } pending id isObj pt p
+        (match kind with | .list => some 0 | _ => none) items
       let its := match kind with
         | .obj cls => normObjItems cls r.2
-        | .list => renumber r.2
-        | .dict => r.2
+        | _ => r.2
       let t := Tree.node { id := id, parent := par, path := p, kind := kind, sealed := false, accW := aw, part := pt } its
       (r.1, sealIf sl t)
-  def evalItems (cfg : Cfg) (f : Forest) (pending : Option Nat) (h : Nat) (holderObj : Bool) (hpart : Bool) (p : List Key) : List (Key × VE) → Forest × Items
+  def evalItems (cfg : Cfg) (f : Forest) (pending : Option Nat) (h : Nat) (holderObj : Bool) (hpart : Bool) (p : List Key)
+      (pos : Option Nat) : List (Key × VE) → Forest × Items
     | [] => (f, [])
-    | (k, v) :: r =>
+    | (k0, v) :: r =>
+      let k := match pos with | some n => Key.i n | none => k0
       let a := evalVE cfg f pending (some h) holderObj hpart (p ++ [k]) v
-      let b := evalItems cfg a.1 pending h holderObj hpart p r
+      let b := evalItems cfg a.1 pending h holderObj hpart p (pos.map (· + 1)) r
       (b.1, (k, a.2) :: b.2)
 end
 
